@@ -62,7 +62,7 @@ def form(rng, d):
 def generate(tier, seed):
     rng = C.rng_for(seed, "C06")
     lines, nt = [], set()
-    n = 2500 if tier == "quick" else 60000
+    n = 7000 if tier == "quick" else 200000
     pre = ["EVAL (setq expansions 0) " + DEFS,
            "EVAL (defun fn1 (a) (when a (inc a)) (my-if a (list 'fn1 a) 'none))",
            "EVAL (setq v 1) (setq w 10) (setq cnt 0) (setq s 'user-s)"]
